@@ -20,6 +20,7 @@ INVARIANT MAtMostOnce
 INVARIANT MOnTime
 INVARIANT MOwn
 INVARIANT MNoDup
+INVARIANT MConnsSound
 INVARIANT XNoTruncated
 INVARIANT XAtMostOnce
 INVARIANT XTcpOnlyAfterTc
